@@ -101,61 +101,80 @@ THEOREMS = [
     "BeyondVerif.C03W.sub_microsecond_band_differs",
 ]
 LEVEL_TEXT = ("Lean theorems over an exact integer model (ticks of 1e-7 s) of Date / Timescale.offset / EopDb.get / DateRange, instantiated with the scale graph "
-              "(execution order), the _scale_*_minus_* method table (AST) and the IERS tables regenerated from /repo on each run: offsets defined, antisymmetric and "
-              "composable for all 36 pairs with the exact constants (decide on coefficient vectors); the constructor and _convert_to_scale keep the instant (omega); "
-              "change_scale moves the instant by at most 1.5 us of rounding plus the disagreement of the two EOP records — nothing between UTC/TAI/TT/GPS, at most 1.5 us (0.5 us from a "
-              "whole-microsecond reading) with UT1 when both dates carry the same record; the record of a date is the one tabulated for its UTC reading (second lookup of fix fc514f7); "
-              "d+t moves the clock reading by exactly t in every scale, (d+t)-d=t and associativity in TAI/TT/GPS unconditionally; comparisons/hash are those of the "
-              "microsecond-exact `_datetime`, agree with `-` and are functions of the instant; DateRange iteration is the arithmetic progression of length len, all members `in` the range, for both step signs (induction); "
-              "|TDB-TT| < 1.7 ms over R for the formula translated from the AST. 'As tabulated for that day': for every table with ascending dates and every mjd the TAI-UTC lookup returns "
-              "the value of the entry with the greatest date <= mjd (exactly at an entry's date the entry itself, one tick earlier the one before, nothing before the first entry), the record is a "
-              "function of the day number and is exactly (finals[day], that entry) — tied to SimpleEopDatabase.tai_utc / finals / EopDb.get at every entry date of tai-utc.dat exactly and +-1 us, "
-              "and to the readers on the text of the files. Exact differential correspondence of the compiled model with the real classes.")
+              "(execution order), the _scale_*_minus_* method table (AST) and the IERS tables regenerated from /repo on each run; the arithmetic of the Date methods (constructor "
+              "normalisation, _convert_to_scale, the divmod and the single constructor call of __add__, the five comparisons, __hash__) and DateRange.__contains__ / __iter__ / __len__ "
+              "are translated from the AST on every run (Generated/DateSrc.lean, a dedicated translator that refuses every other shape) and proved equal to the model (src_*). "
+              "Offsets defined, antisymmetric and composable for all 36 pairs with the exact constants (decide on coefficient vectors); the constructor and _convert_to_scale keep the instant "
+              "(omega); change_scale: exact error budget (changeScale_decomp: three timedelta roundings + the disagreement of the offsets), nothing between UTC/TAI/TT/GPS; for ALL 36 pairs, "
+              "TDB included, when both dates carry the same record: at most 1.6 us in the internal (_d,_s) and at most ONE microsecond in what the API observes (date2 - date1, ==, <, hash: "
+              "changeScale_observed_us) - the TDB-TT term enters through one difference of its values at two mjd arguments < 200 s apart, <= 1 tick, proved of the translated formula over R "
+              "(slope < 2.9e-5 s/day: tdb_lipschitz, tdbTicksR_slow); the record of a date is the one tabulated for its UTC reading; the open finding is quantified: a conversion to UT1 carries the record "
+              "found at the constructor's second reading and moves by exactly UT1-UTC(own day) - UT1-UTC(that day) +- 1 us (to_ut1_step), by nothing outside the band around UTC midnight whose width is "
+              "that difference (to_ut1_safe_zone; the band is sharp to the microsecond: Witness band_edge_is_sharp), a conversion from UT1 never moves (from_ut1_keeps_instant); the day number from a "
+              "double: Model/DateDbl.lean is Date.__init__'s mjd / mjd_utc in exact binary64 arithmetic (fl = round-to-nearest-even on rationals, fl_err: half an ulp), int(mjd) is the exact day "
+              "0.4 us away from own midnight, int(mjd_utc) 0.7 us away from UTC midnight, hence outside those bands the code carries the record of the UTC day (eopForF_record_of_utc_day); "
+              "d+t moves the clock reading by exactly t in every scale, (d+t)-d=t and associativity in TAI/TT/GPS unconditionally; comparisons/hash are those of the microsecond-exact "
+              "`_datetime`, agree with `-` and are functions of the instant; DateRange: every accepted range iterates in at most len+1 evaluations of its condition (range_iter_terminates: no fuel "
+              "hypothesis) over exactly len dates start+k*step, all `in` the range, both step signs; |TDB-TT| < 1.7 ms over R. 'As tabulated for that day': for every sorted table and every mjd the "
+              "TAI-UTC lookup returns the entry with the greatest date <= mjd, the record is a function of the day number - tied to the real lookups at every entry date exactly and +-1 us, and to the "
+              "readers on the text of the files. Exact differential correspondence of the compiled model with the real classes.")
 LEVEL_NOTE = ("Python keeps seconds of day in a double: the integer model is tied on microsecond-exact inputs by exact correspondence (1-4 us slack only where UT1's 0.1-us column or "
-              "the float TDB term enter, and where the double `mjd_utc` decides the day within 3 us of UTC midnight); 'same instant within 1 us' for UT1 is still false within one day's change of "
-              "UT1-UTC of UTC midnight (open finding, kernel-checked witness) and is proved as 1.5 us under 'same EOP record'; DateRange is modelled on instants")
-TECHNIQUE = "Lean 4 proof (omega / induction / kernel decide on regenerated tables / real analysis for the TDB bound) + exact model-implementation correspondence"
+              "the float TDB term enter); the day decision is additionally modelled in exact binary64 arithmetic and tied EXACTLY on the 0.1-us grid within 2 us of UTC midnight and on the neighbouring "
+              "doubles of midnight. 'Same instant within 1 us' holds of the observable difference for all pairs (theorem) but the internal representation moves by up to 1.5 us (three separate roundings; "
+              "kernel-checked witness, and 1.49 us measured on the real Date at the ties of the 0.1-us column): a statement about the property's tolerance, not a defect; it is still false by ~1 ms within one day's "
+              "change of UT1-UTC of UTC midnight (open finding, now quantified); DateRange is modelled on instants")
+TECHNIQUE = "Lean 4 proof (omega / induction / kernel decide on regenerated tables / real analysis for the TDB bound and slope / rational error analysis of binary64 rounding) + exact model-implementation correspondence"
 TRUSTED = [
-    "harness/props/C03.py extract: Timescale method table and Date constants from the AST, TDB formula through harness/py2lean.py, IERS tables through an independent "
-    "fixed-column decimal parser (checked on every run against the Lean column parsers of Model/EopFile.lean fed the text of the three files and against the real readers TaiUtc / Finals / "
-    "Finals2000A, every line; against EopDb.get for every day in the thorough tier, at every table abscissa and a sample of days in the quick tier)",
+    "harness/props/C03.py extract: Timescale method table and Date constants from the AST, TDB formula through harness/py2lean.py, the Date / DateRange method bodies through the dedicated translator "
+    "`date_src` (refuses unknown shapes), IERS tables through an independent fixed-column decimal parser (checked on every run against the Lean column parsers of Model/EopFile.lean fed the text of the "
+    "three files and against the real readers TaiUtc / Finals / Finals2000A, every line; against EopDb.get for every day in the thorough tier, at every table abscissa and a sample of days in the quick tier)",
     "harness/extract_graphs.py: the scale graph in execution order (shared with C20)",
     "correspondence: real Date / DateRange / Timescale.offset / EopDb.get / SimpleEopDatabase.tai_utc / .finals / TaiUtc / Finals / Finals2000A vs the compiled Lean model through microsecond observables "
-    "(_datetime, datetime, _offset, eop, d/s, -, comparisons, hash, len/iter/in, the readers' data)",
+    "(_datetime, datetime, _offset, eop, d/s, -, comparisons, hash, len/iter/in, the readers' data); the record picked by Date(d, s) / Date(mjd) / Date(datetime) vs Model/DateDbl.lean exactly",
+    "Model/DateDbl.lean `fl`: IEEE-754 binary64 round-to-nearest-even on exact rationals, normal range (CPython float arithmetic is binary64 with that rounding; float('decimal') and literals are correctly rounded)",
 ]
 ASSUMPTIONS = [
-    "Model/Date.lean is hand-written exact integer arithmetic; the code computes in doubles. Tied by exact correspondence on microsecond-exact inputs in 1973-2017 "
-    "(float error of `_s` about 1e-11 s; `_mjd` resolves 0.6 us, so distinct microseconds order correctly)",
-    "CPython datetime/timedelta microsecond rounding (half to even) is modelled by roundUs",
+    "Model/Date.lean is exact integer arithmetic (its method bodies proved equal to the translation of the source, Props/C03e.lean); the code computes in doubles. Tied by exact correspondence on "
+    "microsecond-exact inputs in 1973-2017 (float error of `_s` about 1e-11 s)",
+    "CPython datetime/timedelta microsecond rounding (half to even) is modelled by roundUs; at exact ties of the 0.1-us UT1-UTC column the float value decides in the code (the bounds proved use |rounding| <= 0.5 us only, "
+    "so they hold for either direction)",
     "DateRange is modelled on instants: `date += step` is `inst + step` by add_clock when the offset does not change along the range (TAI, TT, GPS always; UTC without leap second); "
     "correspondence runs the real DateRange on Date objects of the four uniform scales",
-    "the TDB-TT term enters the integer model as a parameter (any function); its bound is proved over R, its float evaluation compared to 1e-12 s",
+    "the TDB-TT term enters the integer model as a parameter; `TdbSlow` (<= 1.7 ms, <= 1 tick between arguments < 200 s apart) is proved of the translated formula rounded to ticks over R; that numpy's float "
+    "evaluation is within 1e-12 s of it is checked by correspondence, not proved",
+    "the exact-binary64 day model leaves out routes through TDB (numpy.sin has no exact model): for TDB dates the day decision within 0.7 us of UTC midnight is tied by the tolerant correspondence only",
 ]
 NOT_COVERED = [
     "'same instant within 1 us when UT1 is involved' is false of the current code when the UTC reading lies within one day's change of UT1-UTC (a few ms) of UTC midnight: UT1-UTC is a step "
-    "function of the UTC day (open finding C03-ut1-step-at-utc-midnight; Witness/C03.lean utc_midnight_band_changes_instant)",
-    "UT1/TDB round trip 'within 2 us' and 'UT1: within one day's change of UT1-UTC': oracle only",
+    "function of the UTC day (open finding C03-ut1-step-at-utc-midnight; quantified by to_ut1_step / to_ut1_safe_zone; Witness/C03.lean utc_midnight_band_changes_instant, band_edge_is_sharp)",
+    "UT1/TDB round trip 'within 2 us' and 'UT1: within one day's change of UT1-UTC': oracle only (one leg is bounded by changeScale_instant_bound_all)",
     "x, y, lod, dx, dy, dpsi, deps columns of the EOP record (used by frames, not by time scales)",
-    "the day number of `mjd_utc` is taken from a double (resolution 0.6 us): within that distance of UTC midnight the code may pick either neighbouring record; the model uses the exact day",
+    "the error of the double offset `scale.offset(mjd, 'UTC', eop)` against the exact tick offset (a few 1e-14 s) is not carried through eopForF_record_of_utc_day: the theorem is about the code's own UTC reading "
+    "`d + s/86400 + o/86400` with `o` the double",
     "leap-second windows (documented limitation of the library) except the statements that are unambiguous there: a UTC date from 00:00:00.000000 of the day an entry of tai-utc.dat takes effect "
-    "carries the new TAI-UTC, up to 23:59:59.999999 of the eve the old one (oracle family leap-day:*); Date.now, strptime, pickling",
+    "carries the new TAI-UTC, up to 23:59:59.999999 of the eve the old one (oracle family leap-day:*); Date.now, strptime, pickling, tz-aware datetimes, Date - datetime",
     "Model/EopFile.lean reads plain decimal literals in fixed columns (what the IERS files contain); exponents, inf/nan, underscores, tabs — which Python's float()/split() also accept — are rejected by the model; "
     "the dX/dY/LOD fall-back of the finals readers to the previous day is not modelled (not time-scale columns)",
     "the linear term of the pre-1972 entries of tai-utc.dat, `(MJD - 37300.) X 0.001296 S`, is ignored by the reader (field 6 only) and so by the model: TAI-UTC before 1972 is the constant term (outside the "
     "property's 1973-2017 anyway)",
 ]
 OPEN = [
-    "changeScale_instant_bound_partial: the property's 1 us for UT1 is proved as 1.5 us (three separate timedelta roundings; 0.5 us from a whole-microsecond clock reading) under the hypothesis "
-    "that both dates carry the same EOP record (mk_record_of_utc_day / records_agree say when); with TDB the drift of the TDB term between the two mjd arguments is a parameter",
-    "iteration terminates within len+1 iterations (fuel bound) is not stated; theorems are for every fuel with which the loop returns",
+    "changeScale_instant_bound_partial stays as the internal-representation statement (1.5 us + drift); the property's 'within one microsecond' is proved of the observable difference (changeScale_observed_us) and "
+    "refuted for the internal (_d,_s) (Witness three_roundings_exceed_1us: 1.2 us in exact arithmetic; 1.49 us measured on the real Date) - judged a matter of the property's tolerance",
+    "the hypothesis 'both dates carry the same EOP record' is discharged by to_ut1_safe_zone only for UTC sources; for TAI/TT/GPS sources mk_record_of_utc_day + records_agree give it case by case",
 ]
 RULE = ("correspondence: per scale / ordered pair random clock readings 1973-2017 (one third within 75 s of midnight, 12 % around leap seconds), constructors incl. seconds outside [0,86400) "
         "and dates outside the tables under the three policies, change_scale on all 36 pairs, +/- timedelta, compare/hash/difference of close instants, Timescale.offset with random EOP values, "
         "TDB formula, EopDb.get per day (every day in thorough), DateRange with both step signs / inclusive / incoherent / null plus a deterministic grid of range boundaries (exact multiples, +-1 us, whole-day and "
         "sub-second remainders, steps > 1 day); the lookups tai_utc / finals / EopDb.get AT the tables' abscissae in every tier: each of the 41 entries of tai-utc.dat exactly, +-1 us, +-1 s, +-12 h, the day before "
         "the first entry, first/last day of the finals files and their neighbours, holes, 150-200 random day boundaries (all in thorough); Date constructors / change_scale / + at every leap-second day of the finals "
-        "range exactly at 00:00:00 UTC, +-1 us, +-1 s (UTC) and +-5 us, +-1 s (other scales), Date(int mjd); the readers on every line of the three files and on perturbed copies; distinct = distinct request line. "
-        "oracle: the property's predicates on the real API with the IERS tables of tests/data/pole; tolerances 0 (uniform), 1 us (instant, UT1/TDB), 2 us (clock readings, UT1/TDB offsets)")
+        "range exactly at 00:00:00 UTC, +-1 us, +-1 s (UTC) and +-5 us, +-1 s (other scales), Date(int mjd); the readers on every line of the three files and on perturbed copies; the day decision: Date(d, s) / Date(mjd) / "
+        "Date(datetime) in UTC, TAI, TT, GPS, UT1 with the UTC reading on the 0.1-us grid within 2 us of UTC midnight, +-2 ulps of the double at midnight, negative seconds, seconds = 86400, vs the exact binary64 model (exactly), "
+        "and binary64 model vs exact-day model (may differ only within 0.7 us); distinct = distinct request line. "
+        "oracle: the property's predicates on the real API with the IERS tables of tests/data/pole; tolerances 0 (uniform), 1 us (instant, UT1/TDB), 2 us (clock readings, UT1/TDB offsets), 1.5 us + 4e-8 s on the internal (_d,_s); "
+        "change_scale also from clock readings that are not whole microseconds (Date(d, s)); every constructor form against the datetime form; dates DERIVED by +, -, two additions, DateRange steps from operands in the band "
+        "after own-scale midnight (own day != UTC day), on every leap-second day and random days, sums staying in / leaving the own-scale day, and the mirror: EOP record, offset, ==, hash, UTC/UT1/TAI readings equal to those of "
+        "the directly constructed date, record = the IERS columns of its UTC day, TAI-UTC off the clocks, (d+t)-d=t")
 SCALES = ["UT1", "GPS", "TDB", "UTC", "TAI", "TT"]
 UNIFORM = ("UTC", "TAI", "TT", "GPS")
 T0 = _dt.datetime(1858, 11, 17)
